@@ -242,7 +242,30 @@ func (e *engine) randomConnected(n int) [][2]int {
 func (e *engine) runC28() {
 	e.rep.Rule = "meshes of 3-6 REAL FloodSub routers (PublishHashType unset/SHA256/SHA1/BLAKE3 per router) wired by in-memory streams (line, ring, star, complete, random connected graphs, the same graphs with PARALLEL links between a pair; links established before and after the routers start, in random order), random subsets of subscribers on 2 channels (some nodes with two subscriptions to a channel), 1-4 publishes per mesh from subscribed and unsubscribed publishers and from a signing identity that is not a node; dynamic histories of connect / parallel connect / subscribe / release / close / re-open of the same (peer, link) tuple (after close and over a live session) with settle points, a publish round at every settle point; observed = handler callbacks per subscription with the reported sender, every publish and subscription entry per directed link and link id (stream tap), accepted copy per node (gate hook), router tables at the settle points; the same message injected concurrently from two neighbours with the first copy held right after its seen-set test (gate); distinct = distinct scenario"
 	e.rep.Require("mesh.line", "mesh.ring", "mesh.star", "mesh.complete", "mesh.random", "mesh.late-links", "mesh.parallel", "mesh.unsubscribed-relay", "race.two-neighbours", "fwd.some", "fwd.none",
-		"targets.one-link", "targets.parallel-links", "targets.none", "hist.scripted", "hist.random", "mesh.unsubscribe-received")
+		"targets.one-link", "targets.parallel-links", "targets.none", "hist.scripted", "hist.random", "mesh.unsubscribe-received", "replace.publish-uninit", "alias.replay", "publish.handle", "replace.model")
+	// bursts beyond the capacity of the publish queue: a neighbour that does not read / a loop that is away
+	e.rep.Require("burst.stall", "burst.wake", "burst.publish-queue-full")
+	bi := 0
+	for r := 0; r < e.a.Scale; r++ {
+		for _, mode := range []string{"stall", "wake"} {
+			for _, remote := range []bool{false, true} {
+				e.burstScenario(bi, mode, remote)
+				bi++
+			}
+		}
+	}
+	// known finding: an unsubscribe announced while the tuple is being replaced over its live session is lost
+	e.rep.Require("replace.release-lost")
+	e.replacedLiveRelease()
+	// two sessions of one tuple; the superseded one ends late
+	e.rep.Require("stale.session-exit")
+	for r := 0; r < 2*e.a.Scale; r++ {
+		e.staleSessionExit(r)
+	}
+	// a message served by execPublish while the session of one of its targets is being replaced
+	for r := 0; r < 2*e.a.Scale; r++ {
+		e.replaceDuringPublish(r)
+	}
 	// the refuted full-strength clause: 3-node line, unsubscribed middle (replayed every run)
 	e.runMesh("witness-line3", 3, lineEdges(3), [][]string{{"c1"}, {}, {"c1"}}, []meshPub{{node: 0, ch: "c1"}}, 0, "mesh.line")
 	// relay over a pair joined by two links: W -1- X =2= Y, everybody subscribed, W and Y publish
